@@ -129,6 +129,19 @@ C16(z) ==
                 k \in {j \in 1..5 : InShard(j)}}
   \cup UNION {{ParseCase(m, ProbeOf(m)) : m \in Mutants(Seeds[i])} : i \in {j \in 1..Len(Seeds) : InShard(j)}}
   \cup (IF First THEN {ParseCase(w, ProbeOf(w)) : w \in WsVariants} ELSE {})
+  \* names where the field takes none (minute, hour, day of month; a weekday name as month and the reverse), alone, in a
+  \* list and as a range end; and characters that case-fold or normalise to the letters of a name (long s, dotless i,
+  \* dotted capital I, Kelvin sign, full-width digits) - none of them is a documented spelling
+  \cup (IF First THEN
+          {ParseCase(ExprWith(k, t), ProbeOf(ExprWith(k, t))) :
+              k \in 1..3, t \in UNION {{nm, <<"1", ",">> \o nm, <<"1", "-">> \o nm, nm \o <<"-">> \o nm} :
+                                        nm \in {MonthNames[1], MonthNames[12], Cased(MonthNames[3], 7), DayNames[1], DayNames[6], Cased(DayNames[2], 1)}}}
+          \cup {ParseCase(ExprWith(4, nm), ProbeOf(ExprWith(4, nm))) : nm \in {DayNames[i] : i \in 1..7}}
+          \cup {ParseCase(ExprWith(5, nm), ProbeOf(ExprWith(5, nm))) : nm \in {MonthNames[i] : i \in 1..12}}
+          \cup {ParseCase(ExprWith(k, t), ProbeOf(ExprWith(k, t))) : k \in {4, 5},
+                  t \in {<<"ſ","e","p">>, <<"ſ","u","n">>, <<"ſ","a","t">>, <<"f","r","ı">>, <<"f","r","İ">>, <<"F","R","ı">>, <<"j","a","n","-","ſ","e","p">>,
+                         <<"1",",","f","r","ı">>, <<"１">>, <<"１","２">>, <<"٣">>, <<"o","c","t","́">>, <<"m","o","n","​">>}}
+        ELSE {})
 
 \* ---- C17 histories ------------------------------------------------------------------------
 HistExprs == << <<"*", " ", "*", " ", "*", " ", "*", " ", "*">>,
